@@ -115,14 +115,32 @@ def iter {α : Type} (f : α → α) : Nat → α → α
   | 0, x => x
   | n + 1, x => f (iter f n x)
 
+/-- `(cos(b n), sin(b n))` from `(cos b, sin b)` by the angle-addition formulas -/
+def rotPow (cb sb : K) : Nat → K × K
+  | 0 => (1, 0)
+  | n + 1 => ((rotPow cb sb n).1 * cb - (rotPow cb sb n).2 * sb,
+              (rotPow cb sb n).2 * cb + (rotPow cb sb n).1 * sb)
+
+/-- `(cos(b n), sin(b n))` for any integer n -/
+def rotZ (cb sb : K) : Int → K × K
+  | .ofNat n => rotPow cb sb n
+  | .negSucc n => rotPow cb (-sb) (n + 1)
+
+/-- `sin(b n + c)` (isSin) or `cos(b n + c)` at the integer n -/
+def trigVal (isSin : Bool) (cb sb cc sc : K) (n : Int) : K :=
+  if isSin then (rotZ cb sb n).2 * cc + (rotZ cb sb n).1 * sc
+  else (rotZ cb sb n).1 * cc - (rotZ cb sb n).2 * sc
+
 /-- the basic sequences: `δ[n-d]`, `u[n-d]`, the constant 1, `cos(b n + c)`, `sin(b n + c)`
-    (the sinusoids are given by `cos b, sin b, cos c, sin c`) -/
+    (the sinusoids are given by `cos b, sin b, cos c, sin c`), and a sinusoid gated by a delayed
+    step `u[n-g]` (byImp = false) or sampled by an impulse `δ[n-g]` (byImp = true) -/
 inductive Base (K : Type) where
   | imp (d : Int)
   | step (d : Int)
   | one
   | cos (cb sb cc sc : K)
   | sin (cb sb cc sc : K)
+  | gated (isSin byImp : Bool) (g : Int) (cb sb cc sc : K)
 
 /-- `invz ** delay` resp. `invz ** delay / (1 - invz)` — the code applies this to any integer delay,
     also to advances (finding F17, kept: the upstream test-suite pins it) -/
@@ -132,6 +150,15 @@ def ztBase : Base K → ZR K
   | .one => ⟨0, [1], [1, -1]⟩
   | .cos cb sb cc sc => ⟨0, [cc, -(cb * cc + sb * sc)], [1, -(cb + cb), 1]⟩
   | .sin cb sb cc sc => ⟨0, [sc, sb * cc - cb * sc], [1, -(cb + cb), 1]⟩
+  -- δ[n-g] x[n] = x[g] δ[n-g]
+  | .gated isSin true g cb sb cc sc =>
+    if g ≥ 0 then ⟨0, pscale (trigVal isSin cb sb cc sc g) (pshift g.toNat [1]), [1]⟩
+    else ⟨(-g).toNat, pscale (trigVal isSin cb sb cc sc g) [1], [1]⟩
+  -- rule "multiplication with u(n-n0)": X(z) - Σ_{ii<n0} x[ii] z^-ii  (nothing is subtracted for n0 ≤ 0)
+  | .gated isSin false g cb sb cc sc =>
+    let den : List K := [1, -(cb + cb), 1]
+    let num : List K := if isSin then [sc, sb * cc - cb * sc] else [cc, -(cb * cc + sb * sc)]
+    ⟨0, psub num (pmul den ((List.range g.toNat).map fun i => trigVal isSin cb sb cc sc (Int.ofNat i))), den⟩
 
 /-- one term `coef * n^p * a^n * base(n)` -/
 structure CTerm (K : Type) where
@@ -231,6 +258,7 @@ def dftTerm (numeric : Bool) (t : CTerm K) (N : Nat) (q : K) : Option K :=
     else some 0
   | .cos .. => none
   | .sin .. => none
+  | .gated .. => none
   | b =>
     let l : Nat := match b with
       | .step d => d.toNat
